@@ -230,7 +230,7 @@ def run(tier):
             continue
         m["case"] = farm.add(Case(r["tokens"], [("op", "Op")], prelude="pub type Date = String; pub type date_time = String; pub type DateTime = String;", resp=False))
     farm.build()
-    model = InputModel(schema, max_depth=1 if tier == "quick" else 2)
+    model = InputModel(schema, max_depth=1)
     outcomes = {}
     per = {}
     n_assign = n_forbidden = n_distinct = 0
